@@ -47,7 +47,13 @@ struct tracked
     }
     tracked& operator=(tracked const&) = default;
     tracked& operator=(tracked&&) = default;
-    ~tracked() { --g_live; }
+    // a destroyed payload is poisoned: reading it afterwards (a dangling reference handed on by an adaptor)
+    // shows up as a wrong value
+    ~tracked()
+    {
+        v = -7777;
+        --g_live;
+    }
 };
 // error payloads are counted too: an exception object that an adaptor stored and never released
 // (e.g. two errors written over each other) shows up as a leak
@@ -65,7 +71,11 @@ struct term_error
         ++g_live;
     }
     term_error& operator=(term_error const&) = default;
-    ~term_error() { --g_live; }
+    ~term_error()
+    {
+        e = -7777;    // poisoned, see tracked
+        --g_live;
+    }
 };
 using any_s = ex::unique_any_sender<tracked>;
 
@@ -319,6 +329,20 @@ struct builder
             any_s c2 = consumer();
             return any_s(ex::when_all(std::move(c1), std::move(c2)) |
                 ex::then([](tracked a, tracked b) { return tracked(a.v + b.v); }));
+        }
+        if (op == "drop_wa")
+        {
+            // drop_operation_state directly on top of when_all (no type erasure in between: the error that
+            // when_all hands on lives in the operation state that is being dropped)
+            any_s a = build();
+            any_s b = build();
+            return any_s(ex::drop_operation_state(ex::when_all(std::move(a), std::move(b)) |
+                ex::then([](tracked x, tracked y) { return tracked(x.v + y.v); })));
+        }
+        if (op == "drop_es")
+        {
+            any_s s = build();
+            return any_s(ex::drop_operation_state(ex::ensure_started(std::move(s))));
         }
         if (op == "when_all")
         {
